@@ -21,7 +21,7 @@ import svm
 
 PROPERTY = 'C18'
 RULE = ('Hypothesis-generated programs (all features) plus the example corpus. (i) reproducibility: every program is '
-        'compiled twice in process and in 4 fresh subprocesses with PYTHONHASHSEED in {0,1,12345,random}; all outputs must '
+        'compiled twice in process and in 6 fresh subprocesses with PYTHONHASHSEED in {0,1,12345,random} and, with further seeds, under python -O and -OO; all outputs must '
         'be byte-identical (or the same diagnostic). (ii) stack-size monotonicity: a run that does not overflow at S must '
         'behave identically at S_min, S_min+1, 2*S_min, 400, 4000 and the largest stack the word size allows. (iii) word-size '
         'monotonicity: if the reference interpreter at word size w reports no wrap-around, the VM events at every wider '
@@ -33,7 +33,7 @@ RULE = ('Hypothesis-generated programs (all features) plus the example corpus. (
 ASSUMPTIONS = ['verification Sphinx VM (svm)', 'reference interpreter only decides "values fit the narrower word"',
                'programs containing an out-of-range folded constant (known finding F4) are excluded from (iii)']
 MIN_NONTRIVIAL = 50
-SEEDS = ['0', '1', '12345', 'random']
+SEEDS = ['0', '1', '12345', 'random', '7 -O', 'random -OO']      # hash seed [+ interpreter optimisation level]
 
 
 def shards(tier):
@@ -50,7 +50,11 @@ def batch_hashes(items, hashseed):
         json.dump(items, f)
         path = f.name
     try:
-        env = dict(os.environ, PYTHONHASHSEED=hashseed)
+        hs, _, opt = hashseed.partition(' ')
+        env = dict(os.environ, PYTHONHASHSEED=hs)
+        env.pop('PYTHONOPTIMIZE', None)
+        if opt:
+            env['PYTHONOPTIMIZE'] = str(len(opt) - 1)       # -O: assert statements are stripped; -OO: docstrings too
         r = subprocess.run([sys.executable, os.path.join(VERIF, 'tools', 'compile_batch.py'), path],
                            capture_output=True, text=True, env=env, timeout=600)
         if r.returncode != 0:
